@@ -10,8 +10,8 @@
    canonical (onset, pitch, duration) order, row = (onset, pitch, duration);
    mftc c0 c ct = morph of chroma c if the tonic had chroma ct and the first note chroma c0. *)
 From PV Require Import Lib.Base Gen.C17_PS13 Gen.C17_KeyTab Gen.C17_MidiTab Gen.C17_VSTab
-  Model.C17_Spelling Model.C17_Chroma Model.C17_Voices Model.C17_Contig Model.C17_Key Model.C17_KeyApi Model.C17_Midi Model.C17_History
-  Proofs.C17_lib Proofs.C17_Spelling Proofs.C17_Chroma Proofs.C17_Voices Proofs.C17_VoicesTotal Proofs.C17_Contig Proofs.C17_Key Proofs.C17_KeyApi Proofs.C17_Midi Proofs.C17_History.
+  Model.C17_Spelling Model.C17_Chroma Model.C17_Voices Model.C17_Contig Model.C17_Key Model.C17_KeyApi Model.C17_Midi Model.C17_MidiParse Model.C17_History
+  Proofs.C17_lib Proofs.C17_Spelling Proofs.C17_Chroma Proofs.C17_Voices Proofs.C17_VoicesTotal Proofs.C17_Contig Proofs.C17_Key Proofs.C17_KeyApi Proofs.C17_Midi Proofs.C17_MidiParse Proofs.C17_MidiFile Proofs.C17_History.
 From Coq Require Import Sorting.Permutation.
 #[local] Open Scope Z_scope.
 
@@ -465,6 +465,111 @@ Theorem midi_import_example :
   assign_parts 6 [(0, 0); (1, 0)] = [None; None].
 Proof. exact import_example. Qed.
 Print Assumptions midi_import_example.
+
+(* ---- the READER of the importer (Model.C17_MidiParse: load_score_midi's loop over the messages of a track -- the running
+   time summed over ALL messages, the dictionary sounding_notes keyed by note_hash(channel, note), note_on with velocity 0 as
+   a note end, ends of keys that are not sounding ignored -- parametric in the hash; parse_track = the code's hash).
+   A message is (delta time, kind, channel, note, velocity), kind 0 = note_off, 1 = note_on, other = any other message. *)
+
+(* the loop is one left-to-right pass: a track read in two pieces, the second from the time and dictionary the first left *)
+Theorem midi_reader_is_a_left_to_right_pass : forall h a b t d,
+  parse_with h t d (a ++ b) = parse_with h t d a ++ parse_with h (time_after t a) (dict_after h t d a) b.
+Proof. exact parse_with_app. Qed.
+Print Assumptions midi_reader_is_a_left_to_right_pass.
+
+(* EVERY WRITTEN NOTE IS READ.  Wherever in a track (any messages before, any after -- other channels sounding the same
+   pitch, unfinished notes, stray ends, meta messages) a note is written as a note-on (velocity > 0) ... a note end (note_off
+   or note_on velocity 0) of the same channel and note number 0..127 with no start or end of that channel AND note in
+   between: the reader emits it on that channel with onset = the sum of the delta times up to the note-on, its pitch,
+   duration = the sum of the delta times from there to the end (zero included) *)
+Theorem midi_written_note_is_read : forall pre mon mid moff post,
+  is_start mon = true -> is_end moff = true -> m_chan moff = m_chan mon -> m_note moff = m_note mon ->
+  0 <= m_note mon < 128 ->
+  (forall m, In m mid -> is_start m = true \/ is_end m = true ->
+             0 <= m_note m < 128 /\ ~ (m_chan m = m_chan mon /\ m_note m = m_note mon)) ->
+  In (m_chan mon, (time_after 0 (pre ++ [mon]), m_note mon, time_after 0 (mid ++ [moff])))
+     (parse_track (pre ++ mon :: mid ++ moff :: post)).
+Proof. exact written_note_is_read. Qed.
+Print Assumptions midi_written_note_is_read.
+
+(* ... AND NOTHING ELSE IS: every note the reader emits is such a pair -- the track splits into a note-on, messages none of
+   which starts or ends the same key, the note end that emitted it -- with exactly that onset, pitch and duration *)
+Theorem midi_read_note_was_written : forall ms x, In x (parse_track ms) ->
+  exists pre mon mid moff post, ms = pre ++ mon :: mid ++ moff :: post /\
+     is_start mon = true /\ is_end moff = true /\ m_hash moff = m_hash mon /\
+     (forall m, In m mid -> is_start m = true \/ is_end m = true -> m_hash m <> m_hash mon) /\
+     x = (m_chan moff, (time_after 0 (pre ++ [mon]), m_note moff, time_after 0 (mid ++ [moff]))).
+Proof. exact read_note_was_written. Qed.
+Print Assumptions midi_read_note_was_written.
+
+(* the key of the dictionary tells channels and note numbers apart *)
+Theorem midi_note_hash_injective : forall c p c' p', 0 <= p < 128 -> 0 <= p' < 128 ->
+  note_hash c p = note_hash c' p' -> c = c' /\ p = p'.
+Proof. exact note_hash_injective. Qed.
+Print Assumptions midi_note_hash_injective.
+
+(* never more notes than note ends (every hash) *)
+Theorem midi_reader_no_more_notes_than_ends : forall h ms t d,
+  (List.length (parse_with h t d ms) <= List.length (filter is_end ms))%nat.
+Proof. exact parse_length_le_ends. Qed.
+Print Assumptions midi_reader_no_more_notes_than_ends.
+
+(* non-vacuity: a track with a late start, C4 on channels 0 and 1 at once, a control message, a stray end, a note_on
+   velocity 0 end, a zero-length E4 and an unfinished D4 meets the hypotheses for channel 0's C4; the file's groups *)
+Theorem midi_reader_example :
+  parse_track mp_track = [(0, (3, 60, 6)); (1, (5, 60, 7)); (0, (12, 64, 0))] /\
+  (exists pre mon mid moff post, mp_track = pre ++ mon :: mid ++ moff :: post /\
+     is_start mon = true /\ is_end moff = true /\ m_chan moff = m_chan mon /\ m_note moff = m_note mon /\
+     mon = (0, 1, 0, 60, 64) /\ List.length mid = 3%nat /\
+     forallb (fun m => negb (is_start m || is_end m) || negb ((m_chan m =? m_chan mon) && (m_note m =? m_note mon))) mid = true) /\
+  parse_file [mp_track; [(0, 1, 0, 48, 9); (4, 0, 0, 48, 0)]]
+    = [((0, 0), [(3, 60, 6); (12, 64, 0)]); ((0, 1), [(5, 60, 7)]); ((1, 0), [(0, 48, 4)])].
+Proof. exact mp_example. Qed.
+Print Assumptions midi_reader_example.
+
+(* the statement discriminates: a reader that pairs note-on and note end by the PITCH alone (channel left out of the key)
+   does not read channel 0's C4 of that track -- one note with a wrong onset comes out, channel 1's C4 is lost *)
+Theorem midi_pairing_by_pitch_only_refuted :
+  ~ In (0, (3, 60, 6)) (parse_with hash_pitch_only 0 [] mp_track) /\
+  parse_with hash_pitch_only 0 [] mp_track = [(0, (5, 60, 4)); (0, (12, 64, 0))] /\
+  In (0, (3, 60, 6)) (parse_track mp_track) /\ In (1, (5, 60, 7)) (parse_track mp_track).
+Proof. exact pitch_only_pairing_refuted. Qed.
+Print Assumptions midi_pairing_by_pitch_only_refuted.
+
+(* ---- the reader in front of the importer (parse_file: the notes per (track, channel), keys sorted, handed to import_notes) *)
+
+(* the notes of the file's groups are exactly the notes the reader emitted for the file's tracks *)
+Theorem midi_file_groups_hold_the_notes_read : forall r tracks,
+  In r (flat_map (fun g : mgroup => snd g) (parse_file tracks)) <->
+  exists ms, In ms tracks /\ In r (map (fun x => snd x) (parse_track ms)).
+Proof. exact parse_file_rows. Qed.
+Print Assumptions midi_file_groups_hold_the_notes_read.
+
+(* FROM THE MESSAGES TO THE SCORE, all six modes, every file whose note ends carry note numbers 21..108: the import
+   succeeds, every note is in a part, and (onset, Note.midi_pitch) of the notes created are exactly (onset, pitch) of
+   the notes the reader emitted -- nothing lost, nothing invented *)
+Theorem midi_file_import_is_exactly_the_notes_read : forall mode tracks, 0 <= mode <= 5 ->
+  (forall ms m, In ms tracks -> In m ms -> is_end m = true -> 21 <= m_note m <= 108) ->
+  exists out, import_notes mode (parse_file tracks) = Some out /\
+    Forall (fun x => fst x <> None) out /\
+    forall o p, In (o, p) (map (fun x => snd x) out) <->
+                exists ms x, In ms tracks /\ In x (parse_track ms) /\ o = r_onset (snd x) /\ p = Some (r_pitch (snd x)).
+Proof. exact file_import_spec. Qed.
+Print Assumptions midi_file_import_is_exactly_the_notes_read.
+
+(* hence THE CLAUSE ON FILES: a note written into any track of such a file (note-on ... note end, nothing on its channel
+   and note number in between) is a note of the imported score, at its onset, sounding its pitch *)
+Theorem midi_written_note_is_in_the_score : forall mode tracks pre mon mid moff post, 0 <= mode <= 5 ->
+  (forall ms m, In ms tracks -> In m ms -> is_end m = true -> 21 <= m_note m <= 108) ->
+  In (pre ++ mon :: mid ++ moff :: post) tracks ->
+  is_start mon = true -> is_end moff = true -> m_chan moff = m_chan mon -> m_note moff = m_note mon ->
+  (forall m, In m mid -> is_start m = true \/ is_end m = true ->
+             0 <= m_note m < 128 /\ ~ (m_chan m = m_chan mon /\ m_note m = m_note mon)) ->
+  exists out, import_notes mode (parse_file tracks) = Some out /\
+    Forall (fun x => fst x <> None) out /\
+    In (time_after 0 (pre ++ [mon]), Some (m_note mon)) (map (fun x => snd x) out).
+Proof. exact written_note_is_in_the_score. Qed.
+Print Assumptions midi_written_note_is_in_the_score.
 
 (* ================================================================== *)
 (* the hypotheses are satisfiable / the models evaluate (concrete non-trivial inputs) *)
